@@ -15,6 +15,7 @@ func init() {
 		ID: "C14", Engine: "lib", Level: "fault_enumeration",
 		Rule: "case = (document from /repo's test tables, fuzz corpora and benchmarks; optionally embedded in an HTML host; entry point; fault kind; writer-call index k_w; reader byte offset k_r; chunking; schedule). " +
 			"For each document a fault-free run measures W (Write calls incl. the final zero-length probe) and R (input bytes); then every k_w in [0,W) x {(0,err),(short,err)} and every k_r in [0,R] x {(0,err),(n>0,err)} is run through the plain call (strided for long documents: counters inputs_positions_sampled vs inputs_all_positions_enumerated), a spread through Writer/ResponseWriter/MiddlewareWithError/Match/Reader and through one level of embedding, then random cases. " +
+			"The failing writer returns an opaque error or, in a third of the cases, a value a real sink hands out (io.EOF, io.ErrUnexpectedEOF, io.ErrShortWrite, io.ErrClosedPipe, a wrapped EOF, *net.OpError with EPIPE / ECONNRESET, context.Canceled, os.ErrDeadlineExceeded, syscall.EPIPE). One random case in 1024 goes through an external-command minifier (stdin or $in, stdout or $out; 1-64 byte or 100-300 KiB documents; real process). " +
 			"distinct = distinct (document, embedding, entry, fault kind, k_w, k_r, reader kind, schedule hash); non-trivial = the injected fault actually fired.",
 		Assumptions: []string{
 			"fault model is fail-stop as the property states: once a reader or writer has failed it keeps failing",
@@ -51,7 +52,7 @@ func init() {
 	}
 	cfgs["C15"] = &propCfg{
 		ID: "C15", Engine: "lib", Level: "exploration",
-		Rule: "case = one operation history on a fresh registry: 0-12 registrations (Add, AddFunc, AddRegexp, AddFuncRegexp, and in 1/12 of histories AddCmd/AddCmdRegexp with a real helper process) over overlapping literal types and patterns, interleaved with 10-30 queries (Match+call, Minify, MinifyMimetype, Bytes, String, Reader) with media type strings varying case, surrounding spaces, 0-3 parameters with and without values and spaces; every query is compared with a 30-line reference model (literal first, else first-registered matching pattern, else ErrNotExist and zero bytes written; params after the first ';' as a map; Match answers what a call would use; re-registration replaces). Strings outside the grammar only: no panic, Match and Minify agree. distinct = distinct histories; non-trivial = at least two registrations.",
+		Rule: "case = one operation history on a fresh registry: 0-12 registrations (Add, AddFunc, AddRegexp, AddFuncRegexp, and in 1/12 of histories AddCmd/AddCmdRegexp with a real helper process) over overlapping literal types and patterns, interleaved with 10-30 queries (Match+call, Minify, MinifyMimetype, Bytes, String, Reader, Writer incl. Close without a Write, ResponseWriter with the string as Content-Type) with media type strings varying case, surrounding spaces, 0-3 parameters with and without values and spaces; every query is compared with a 30-line reference model (literal first, else first-registered matching pattern, else ErrNotExist and zero bytes written; params after the first ';' as a map; Match answers what a call would use; re-registration replaces). Strings outside the grammar only: no panic, Match and Minify agree. distinct = distinct histories; non-trivial = at least two registrations.",
 		Assumptions: []string{
 			"no schedule or fault dimension exists in this property: this is the model-based (operation history vs. reference model) half of the technique only",
 			"the model of the media type grammar is `type/subtype( *; *k( *= *v)?)*` with optional surrounding spaces; other strings are judged only for Match/Minify agreement",
@@ -61,7 +62,7 @@ func init() {
 	}
 	cfgs["C20"] = &propCfg{
 		ID: "C20", Engine: "cli", Level: "fault_enumeration",
-		Rule: "scenario = (directory tree; invocation shape in {in-place file, in-place directory -r, in-place bundle, separate file, separate directory, sync to directory, sync in place, symlink alias of input/destination, hard-link alias, stdin to file}; file types and sizes incl. empty, rejected-by-library and >32KiB; worker schedule tape). A fault-free run of the real cmd/minify records the operation trace (K operations); then the child is re-run on a rebuilt tree and SIGKILLed before EVERY operation that follows a mutating operation (rename, open-with-truncate, write, remove, mkdir, chmod, chown, chtimes, symlink; disk states between two non-mutating operations are identical), plus the completed run, and every file write is additionally torn at prefix lengths 1, n/2, n-1. Each disk image is judged by the property's disjunction. evaluations = disk images examined (+1 fault-free run per scenario); distinct_nontrivial = images taken after at least one mutating operation; exhaustive = every such boundary of every explored scenario was examined.",
+		Rule: "scenario = (directory tree; invocation shape in {in-place file, in-place directory -r, in-place bundle, separate file, separate directory, sync to directory, sync in place, symlink alias of input/destination, hard-link alias, stdin to file}; file types and sizes incl. empty, rejected-by-library and >32KiB; worker schedule tape). A fault-free run of the real cmd/minify records the operation trace (K operations); then the child is re-run on a rebuilt tree and SIGKILLed before EVERY operation that follows a mutating operation (rename, open-with-truncate, write, remove, mkdir, chmod, chown, chtimes, symlink; disk states between two non-mutating operations are identical), plus the completed run, and every file write is additionally torn at prefix lengths 1, n/2, n-1. Scenarios that rename are enumerated a second time with every write failing (ENOSPC), kills at every boundary of the restore path; a tree that registers a signal handler outside --watch gets a third enumeration in which SIGTERM is delivered to that handler at every such boundary. Each disk image is judged by the property's disjunction. evaluations = disk images examined (+1 fault-free run per scenario); distinct_nontrivial = images taken after at least one mutating operation; exhaustive = every such boundary of every explored scenario was examined.",
 		Assumptions: []string{
 			"crash model is process kill (the property's): the page cache survives, so 'durable' = 'the call returned', plus torn writes; power loss is out of scope",
 			"the crashing operation k is the same operation in every re-run because the worker schedule is on the tape; the prefix of the crash run's trace is compared with the fault-free trace and a divergence aborts the check with exit 2",
